@@ -61,12 +61,13 @@ class Ob:
     """One discharged (or attempted) obligation, produced by workers (must be picklable/jsonable)."""
 
     def __init__(self, name, verdict, secs=0.0, cfg=None, detail=None, kind="obligation", model=None, key=None,
-                 queries=1, trivial=False):
+                 queries=1, trivial=False, replayed=None, what=None):
         # verdict: 'unsat' (holds) | 'sat' (counterexample) | 'unknown' | 'error'
         # kind: 'obligation' | 'vacuity' (expects sat) | 'unwind' | 'selfcheck' | 'expected_sat'
         self.name, self.verdict, self.secs, self.cfg = name, verdict, float(secs), cfg
         self.detail, self.kind, self.model, self.key = detail, kind, model, key
         self.queries, self.trivial = queries, trivial
+        self.replayed, self.what = replayed, what  # for verdict 'sat': did the model reproduce on the real code?
 
     def to_dict(self):
         return jsonable(self.__dict__)
@@ -115,6 +116,13 @@ class Report:
         elif k in ("obligation", "unwind", "selfcheck"):
             if v == "unknown":
                 self.inconclusive.append(f"{d['name']} cfg={d.get('cfg')}")
+            elif v == "sat":
+                if d.get("replayed") is True:
+                    self.validated += 1
+                    self.violation(d.get("key") or d["name"], d.get("what") or f"{d['name']} fails: {d.get('detail')}",
+                                   dict(harness=d["name"], cfg=d.get("cfg"), model=d.get("model"), detail=d.get("detail")))
+                else:
+                    self.no_replay(d["name"], f"cfg={d.get('cfg')} model={d.get('model')} detail={d.get('detail')}")
         return d
 
     def add_all(self, obs):
@@ -142,6 +150,8 @@ class Report:
             if key not in [k for k, _ in self.known_hits]:
                 self.known_hits.append((key, kf["what"]))
             return
+        if key in [k for k, _, _ in self.violations]:
+            return  # one report per distinct failing key
         os.makedirs(REPLAY_DIR, exist_ok=True)
         path = os.path.join(REPLAY_DIR, f"{self.pid}_{len(self.violations)}.json")
         with open(path, "w") as f:
